@@ -181,24 +181,31 @@ func histReplay(in io.Reader, raw bool, args []string) (*Summary, error) {
 			}
 			last := math.Inf(-1)
 			res := make([]float64, 17)
+			convOK := [2]bool{true, true} // does the 1-based / 0-based rank reading explain every level so far?
 			for a := 0; a <= 16; a++ {
 				q := float64(a) / 16
 				r := stats.HistogramQuantile(hh, q)
 				res[a] = r
 				sum.Checks++
 				ok := false
-				for _, alt := range hc.Q[a] {
+				for ai, alt := range hc.Q[a] {
+					this := false
 					if alt.NaN {
-						ok = ok || math.IsNaN(r)
-						continue
+						this = math.IsNaN(r)
+					} else {
+						lo, hi := conv(big.NewRat(alt.Lo[0], alt.Lo[1])), conv(big.NewRat(alt.Hi[0], alt.Hi[1]))
+						this = !math.IsNaN(r) && r >= lo-tolA-tolR*math.Abs(lo) && r <= hi+tolA+tolR*math.Abs(hi)
 					}
-					lo, hi := conv(big.NewRat(alt.Lo[0], alt.Lo[1])), conv(big.NewRat(alt.Hi[0], alt.Hi[1]))
-					if !math.IsNaN(r) && r >= lo-tolA-tolR*math.Abs(lo) && r <= hi+tolA+tolR*math.Abs(hi) {
-						ok = true
+					ok = ok || this
+					if ai < 2 && !this {
+						convOK[ai] = false
 					}
 				}
 				if !ok {
 					sum.viol("HistogramQuantile", c, "pass %d q=%v: got %v, admissible %+v (bin coordinates)", pass, q, r, hc.Q[a])
+				} else if !convOK[0] && !convOK[1] {
+					sum.viol("HistogramQuantile-convention", c, "pass %d: up to q=%v the results %v follow neither the 1-based nor the 0-based rank reading consistently", pass, q, res[:a+1])
+					convOK = [2]bool{true, true}
 				}
 				if !math.IsNaN(r) {
 					if r < last-1e-12*math.Max(scale, math.Abs(last)) {
